@@ -78,7 +78,16 @@ static bool g_mkdir_may_fail;          // directory creation may fail (permissio
 static bool g_midrun_edit_done;        // at most one source is edited while a command runs, per history
 static bool g_dead;                    // the simulated process has died: nothing ninja does persists any more (C07)
 static bool g_long_output;            // commands that print, print more than ninja reads from a pipe in one go (4 KiB)
-static std::string out_block(const std::string& o0) { return "<<out " + o0 + ">>\n" + (g_long_output ? std::string(4200, 'x') + "\n" : std::string()) + "part two of " + o0 + "\n"; }
+static int g_output_flavour;          // what commands print: 0 plain text, 1 with ANSI colour sequences, 2 with NUL / control / high bytes
+static std::string out_block_as(const std::string& o0, bool as_written, bool colour_kept) {
+  std::string mid;
+  if (g_output_flavour == 1) mid = as_written || colour_kept ? "\x1B[1;31mwarning:\x1B[0m x\x1B[m\n" : "warning: x\n";      // (a non-terminal gets the text without the escape sequences)
+  static const char kCtl[] = "nul[\0] bell[\a] bs[\b] del[\x7f] high[\xff\xfe] tab[\t]\n";
+  if (g_output_flavour == 2) mid = std::string(kCtl, sizeof kCtl - 1);
+  return "<<out " + o0 + ">>\n" + mid + (g_long_output ? std::string(4200, 'x') + "\n" : std::string()) + "part two of " + o0 + "\n";
+}
+static std::string out_block(const std::string& o0) { return out_block_as(o0, true, true); }                                   // what the command writes
+static std::string shown_block(const std::string& o0, bool terminal) { return out_block_as(o0, false, terminal); }         // what ninja must show
 static bool g_stat_may_fail, g_stat_failed, g_commands_started;   // fault injection for DiskInterface::Stat during the build
 static void persistence_event() { if (verif_vfs_event()) g_dead = true; }     // one event counter for DiskInterface and stdio/unistd mutations
 
@@ -390,7 +399,7 @@ struct TeeStatus : public Status {
 struct NoDeadPaths : public BuildLogUser { bool IsPathDead(StringPiece) const override { return false; } };
 
 // ------------------------------------------------------------------------------------------------ one ninja invocation
-struct InvocationOpts { RunnerOpts run; int failures_allowed; std::vector<std::string> targets; bool use_logs; bool dry_run; int token_pool; bool real_status; InvocationOpts() : failures_allowed(1), use_logs(true), dry_run(false), token_pool(-1), real_status(false) {} };
+struct InvocationOpts { RunnerOpts run; int failures_allowed; std::vector<std::string> targets; bool use_logs; bool dry_run; int token_pool; bool real_status; const char* status_option; InvocationOpts() : failures_allowed(1), use_logs(true), dry_run(false), token_pool(-1), real_status(false), status_option(NULL) {} };
 struct InvocationResult {
   bool parsed, loaded, added; int rc; bool up_to_date; std::string err;
   std::vector<int> started, finished_ok, failed, exit_codes; std::vector<std::string> events; int max_running; bool stuck; bool interrupted; int tokens_outstanding; int status_started, status_finished, status_added, status_removed; std::vector<int> status_started_edges; int sp_started, sp_finished, sp_total;
@@ -412,6 +421,7 @@ static InvocationResult invoke(const InvocationOpts& o) {
   State::kConsolePool.current_use_ = 0; State::kConsolePool.delayed_.clear();
   State* state = new State; SymDisk* disk = new SymDisk; RecStatus* status = new RecStatus; BuildConfig* config = new BuildConfig;
   config->verbosity = o.real_status ? BuildConfig::NORMAL : BuildConfig::QUIET;
+  config->progress_status_format = o.status_option;
   Status* status_if = status; StatusPrinter* sp = NULL; if (o.real_status) { sp = new StatusPrinter(*config); status_if = new TeeStatus(status, sp); }
   std::string err;
   ManifestParser parser(state, disk);
